@@ -803,7 +803,11 @@ impl Family for HttpFam {
                 let _ = s.shutdown().await;
                 let mut sink = vec![0u8; 65536];
                 // (whether the connection ends after our half-close is C08's business; only observed here)
-                let deadline = tokio::time::Instant::now() + Duration::from_millis(300);
+                // An unterminated header block followed by end-of-stream leaves the connection's task nothing
+                // to wait for: it must let go of the connection (a task that keeps polling the dead socket
+                // spins). Otherwise the outcome is only observed.
+                let unterminated = !bytes.windows(4).any(|w| w == b"\r\n\r\n");
+                let deadline = tokio::time::Instant::now() + Duration::from_millis(if unterminated { 10_000 } else { 300 });
                 let mut ended = false;
                 loop {
                     match tokio::time::timeout_at(deadline, s.read(&mut sink)).await {
@@ -816,6 +820,12 @@ impl Family for HttpFam {
                     }
                 }
                 drop(s);
+                ensure!(
+                    ended || !unterminated,
+                    "C20.spin",
+                    "the application sent {} bytes of an unterminated header block and finished sending; 10 s later the listener had neither answered nor closed the connection",
+                    bytes.len()
+                );
                 // C20.others: the listener still serves
                 http_get_through(w.http, w.echo_a.addr).await.map_err(|e| Fail::plain("C20.others", format!("a fresh valid request fails after the hostile conversation: {e}")))?;
                 Ok(ended)
@@ -833,6 +843,7 @@ impl Family for HttpFam {
         out.class_if(case.base.is_none(), "raw-bytes");
         out.class_if(ended, "connection-ended");
         out.class_if(!ended, "connection-still-open");
+        out.class_if(case.truncate.is_some() && ended, "truncated-then-eof-closed");
         Ok(out)
     }
 }
